@@ -3253,13 +3253,6 @@ let value_lt a b =
        then bytes_lt a.gl_attr b.gl_attr
        else bytes_lt a.gl_name b.gl_name
 
-(** val vendor_lt : gvendor -> gvendor -> bool **)
-
-let vendor_lt a b =
-  if negb (Z.eqb a.gn_num b.gn_num)
-  then Z.ltb a.gn_num b.gn_num
-  else bytes_lt a.gn_name b.gn_name
-
 (** val split_values :
     bytes list -> bytes list -> bytes list -> gvalue list -> (gvalue
     list * gvalue list) res **)
@@ -3440,7 +3433,15 @@ let funcs a vals =
                           VNamed)) :: [])))))))))
                  else []
 
-type cvendor = { cv_v : gvendor; cv_attrs : gattr list; cv_vals : gvalue list }
+type cvendor = { cv_name : bytes; cv_ident : bytes; cv_num : z;
+                 cv_attrs : gattr list; cv_vals : gvalue list }
+
+(** val cvendor_lt : cvendor -> cvendor -> bool **)
+
+let cvendor_lt a b =
+  if negb (Z.eqb a.cv_num b.cv_num)
+  then Z.ltb a.cv_num b.cv_num
+  else bytes_lt a.cv_name b.cv_name
 
 (** val check_vendors :
     bytes list -> bytes list -> gvendor list -> cvendor list res **)
@@ -3461,11 +3462,35 @@ let rec check_vendors ignore seen = function
            | None ->
              (match check_vendors ignore seen' r with
               | Ok cs ->
-                Ok ({ cv_v = v; cv_attrs = attrs0; cv_vals = vals } :: cs)
+                Ok ({ cv_name = v.gn_name; cv_ident = v.gn_ident; cv_num =
+                  v.gn_num; cv_attrs = attrs0; cv_vals = vals } :: cs)
               | x -> x))
         | Err x -> Err x
         | Panic -> Panic
         | OutOfFuel -> OutOfFuel)
+
+(** val ext_values : gvalue list -> (bytes * bytes) -> gvalue list **)
+
+let ext_values exts e =
+  sort value_lt (filter (fun v -> beq v.gl_attr (fst e)) exts)
+
+(** val emit :
+    gattr list -> (bytes * bytes) list -> gvalue list -> gvalue list ->
+    cvendor list -> gdecl list **)
+
+let emit attrs0 ext values exts vendors =
+  app (map (fun a -> DTypeConst (a.ga_ident, (hd Z0 a.ga_oid))) attrs0)
+    (app (map (fun c -> DVendorConst (c.cv_ident, c.cv_num)) vendors)
+      (app
+        (map (fun e -> DExtInit ((snd e),
+          (map (fun v -> (v.gl_ident, v.gl_num)) (ext_values exts e)))) ext)
+        (app (flat_map (fun a -> funcs a values) attrs0)
+          (flat_map (fun c ->
+            app
+              (map (fun x -> DVendorFunc (c.cv_ident, x)) (Z0 :: ((Zpos
+                XH) :: ((Zpos (XO XH)) :: ((Zpos (XI XH)) :: ((Zpos (XO (XO
+                XH))) :: []))))))
+              (flat_map (fun a -> funcs a c.cv_vals) c.cv_attrs)) vendors))))
 
 (** val gen : gopts -> gdict -> gdecl list res **)
 
@@ -3480,9 +3505,7 @@ let gen o d =
      | Ok a0 ->
        let (locals, exts) = a0 in
        let values = sort value_lt locals in
-       let ext_vals = fun e ->
-         sort value_lt (filter (fun v -> beq v.gl_attr (fst e)) exts)
-       in
+       let ext_vals = ext_values exts in
        (match first_error (fun a1 -> check_values a1 values) attrs0 with
         | Some e -> Err e
         | None ->
@@ -3498,27 +3521,8 @@ let gen o d =
            | None ->
              (match check_vendors o.go_ignore seen d.gd_vendors with
               | Ok cvs ->
-                let vendors = sort (fun a1 b -> vendor_lt a1.cv_v b.cv_v) cvs
-                in
-                Ok
-                (app
-                  (map (fun a1 -> DTypeConst (a1.ga_ident,
-                    (hd Z0 a1.ga_oid))) attrs0)
-                  (app
-                    (map (fun c -> DVendorConst (c.cv_v.gn_ident,
-                      c.cv_v.gn_num)) vendors)
-                    (app
-                      (map (fun e -> DExtInit ((snd e),
-                        (map (fun v -> (v.gl_ident, v.gl_num)) (ext_vals e))))
-                        ext)
-                      (app (flat_map (fun a1 -> funcs a1 values) attrs0)
-                        (flat_map (fun c ->
-                          app
-                            (map (fun x -> DVendorFunc (c.cv_v.gn_ident, x))
-                              (Z0 :: ((Zpos XH) :: ((Zpos (XO XH)) :: ((Zpos
-                              (XI XH)) :: ((Zpos (XO (XO XH))) :: []))))))
-                            (flat_map (fun a1 -> funcs a1 c.cv_vals)
-                              c.cv_attrs)) vendors)))))
+                let vendors = sort cvendor_lt cvs in
+                Ok (emit attrs0 ext values exts vendors)
               | Err x -> Err x
               | Panic -> Panic
               | OutOfFuel -> OutOfFuel)))
